@@ -113,6 +113,7 @@ func c04WireRun(c *mon.Ctx, ri int) {
 	r := c.RandN("c04-wire", ri)
 	thr := []int{64, 256, 1024, 4096, -1}[ri%5]
 	e := newConnEnv(c, r, connOpts{ackBatch: 1 + r.IntN(4), compress: thr})
+	e.keepBad = true
 	streams := 2 + r.IntN(7)
 	perG := 6 + r.IntN(10)
 	base := thr
@@ -245,13 +246,33 @@ func c04WireRun(c *mon.Ctx, ri int) {
 		}
 		allDone := make(chan struct{})
 		go func() { wg.Wait(); close(allDone) }()
-		select {
-		case <-allDone:
-		case <-time.After(paceWatchdog):
-			c.Inconclusive(fmt.Sprintf("c04 wire run %d: operations did not complete within the watchdog", ri))
+		deadline := time.After(paceWatchdog)
+	wait:
+		for {
+			select {
+			case <-allDone:
+				break wait
+			case <-deadline:
+				c.Inconclusive(fmt.Sprintf("c04 wire run %d: operations did not complete within the watchdog", ri))
+				break wait
+			case <-time.After(20 * time.Millisecond):
+				// a frame the peer cannot decrypt / parse is never answered: do not wait for its caller
+				e.srv.mu.Lock()
+				nbad := len(e.srv.bad)
+				e.srv.mu.Unlock()
+				if nbad > 0 {
+					break wait
+				}
+			}
 		}
 	})
-	if !ok {
+	e.srv.mu.Lock()
+	bad := append([]string(nil), e.srv.bad...)
+	e.srv.mu.Unlock()
+	for _, b := range bad {
+		c.Violate("wire|frame-not-decodable-by-the-peer", wit(map[string]any{"what": b}))
+	}
+	if !ok && len(bad) == 0 {
 		return
 	}
 	mu.Lock()
